@@ -99,6 +99,9 @@ func (x *Exec) compSort(name, sort string) {
 func init() {
 	compSorts["M"] = "(Array Int (Array Int Int))"
 	compSorts["MS"] = "(Array Int (Array Int Slice))"
+	compSorts["MR"] = "(Array Int (Array Int Int))"
+	compSorts["MB"] = "(Array Int (Array Int Bool))"
+	compSorts["MP"] = "(Array Int (Array Int Ptr))"
 	compSorts["W"] = "Int"
 	compSorts["MAP"] = "(Array Int (Array Int Int))"
 	compSorts["MAPOK"] = "(Array Int (Array Int Bool))"
@@ -432,11 +435,22 @@ func (fr *Frame) storeComp(a Addr, v Term) {
 	panic("deep nested array store unsupported: " + a.comp)
 }
 
+// memComp: memory is split by element kind; Go's type safety keeps byte arrays, arrays of
+// slices/strings and arrays of other word-sized values (pointers, ints, funcs) in different objects.
 func memComp(elem types.Type) string {
 	if sortOf(elem) == "Slice" {
 		return "MS"
 	}
-	return "M"
+	if bits, _, ok := intInfo(elem); ok && bits == 8 {
+		return "M"
+	}
+	if sortOf(elem) == "Bool" {
+		return "MB"
+	}
+	if sortOf(elem) == "Ptr" {
+		return "MP"
+	}
+	return "MR"
 }
 
 func widthOf(t types.Type) int {
@@ -463,9 +477,14 @@ func fromUnsigned(t types.Type, v Term) Term {
 }
 
 func (fr *Frame) byteFacts(region Term, off Term, w int) {
+	if w == 1 {
+		fr.c().fact(app("<=", "0", app("select", region, off), "255"))
+		return
+	}
+	// the composed word is in range (cheap); the per-byte facts are only used in the second attempt
 	for i := 0; i < w; i++ {
 		b := app("select", region, add(off, num(int64(i))))
-		fr.c().fact(app("<=", "0", b, "255"))
+		fr.c().weakFact(app("<=", "0", b, "255"))
 	}
 }
 
@@ -528,6 +547,8 @@ func (fr *Frame) loadFacts(t types.Type, v Term) {
 		}
 	case "Slice":
 		fr.c().fact(lt(app("s-reg", v), fr.cur.get("W")))
+	case "Ptr":
+		fr.c().fact(lt(app("p-reg", v), fr.cur.get("W")))
 	}
 }
 
@@ -962,8 +983,11 @@ func (fr *Frame) callModsInto(ms *modSet, call *ssa.CallCommon) {
 	case *ssa.Builtin:
 		switch cv.Name() {
 		case "copy", "append":
-			ms.comps["M"] = true
-			ms.comps["MS"] = true
+			if st, ok := call.Args[0].Type().Underlying().(*types.Slice); ok {
+				ms.comps[memComp(st.Elem())] = true
+			} else {
+				ms.comps["M"] = true
+			}
 		case "delete":
 			ms.comps["MAP"] = true
 			ms.comps["MAPOK"] = true
@@ -1028,10 +1052,7 @@ func (fr *Frame) instr(in ssa.Instruction) {
 			if at, isArr := el.Underlying().(*types.Array); isArr {
 				comp := memComp(at.Elem())
 				m := fr.cur.get(comp)
-				es := "Int"
-				if comp == "MS" {
-					es = "Slice"
-				}
+				es := sortOf(at.Elem())
 				fr.cur.set(comp, c.define("st."+comp, compSorts[comp], app("store", m, ref, constArray(es, zeroOf(at.Elem())))))
 			} else {
 				fr.zeroStruct(el, baseInfo{"", ref, nil})
@@ -1419,7 +1440,7 @@ func (fr *Frame) binop(s *ssa.BinOp) Term {
 	}
 	if isString(xt) && s.Op == token.ADD {
 		r := c.fresh("strcat", "Slice")
-		c.assume(and(sliceWF(r), eq(app("s-len", r), add(app("s-len", x), app("s-len", y))), lt(app("s-reg", r), "0")))
+		c.assume(and(sliceWF(r), eq(app("s-len", r), add(app("s-len", x), app("s-len", y)))))
 		return r
 	}
 	if isFloat(xt) {
@@ -1645,10 +1666,7 @@ func (fr *Frame) makeSlice(s *ssa.MakeSlice) {
 	fr.oblige("make", "make: 0 <= len <= cap and cap within the address space", s, and(le("0", ln), le(ln, cp), le(cp, maxElems)))
 	reg := fr.newRef("mk")
 	comp := memComp(el)
-	es := "Int"
-	if comp == "MS" {
-		es = "Slice"
-	}
+	es := sortOf(el)
 	m := fr.cur.get(comp)
 	fr.cur.set(comp, c.define("st."+comp, compSorts[comp], app("store", m, reg, constArray(es, zeroOf(el)))))
 	fr.env[s] = c.define("mks", "Slice", app("mk-slice", reg, "0", ln, cp))
